@@ -74,6 +74,12 @@ def make_array(ac, n, p, start, seed):
         return [""] * n, ["s:"] * n, {"object"}, "cooked"
     if ac in ("list_str", "np_str", "list_str_multibyte", "np_obj_str"):
         src = MSTRS if ac == "list_str_multibyte" else STRS
+        if ac == "np_obj_str":
+            # object arrays keep NUL characters.  (Lists and '<U' arrays go through NumPy's fixed-width text, which
+            # cannot represent a trailing NUL: what the writer is handed no longer has it - not judged.)
+            src = ["pad\x00", "\x00", "a\x00b"] + STRS
+        elif ac == "list_str":
+            src = STRS + ["a\x00b"]
         vals = ["%d%s" % (start + i, src[(start + i) % len(src)]) if (start + i) % 4 else src[(start + i) % len(src)]
                 for i in range(n)]
         arg = np.array(vals) if ac == "np_str" else (np.array(vals, dtype=object) if ac == "np_obj_str" else vals)
